@@ -1335,7 +1335,9 @@ func checkC06EarlyStop(w *World, r *Run) {
 			}
 			switch bo.Op {
 			case token.LSS:
-				if sameValue(bo.X, idx) && sliceContains(bo.Y, false, func(x ssa.Value) bool { return isLenOf(x, func(y ssa.Value) bool { return derivesFromFieldOf(y, "Objects", nil) }) }) {
+				if sameValue(bo.X, idx) && sliceContains(bo.Y, false, func(x ssa.Value) bool {
+					return isLenOf(x, func(y ssa.Value) bool { return derivesFromFieldOf(y, "Objects", nil) })
+				}) {
 					moreObjects = true
 				}
 			case token.GTR:
